@@ -206,6 +206,16 @@ def _scan(ctx, u, f, name, algo, role):
           if single(info['init'] or ()) in (('ptr', base, {'U': 1}), ('int', None, {'U': 1}))]      # (a pointer or an index into the table)
     want_step = {'': 1} if role == 'upper' else {'': -1}
     Lsym = Ls[0][0] if len(Ls) == 1 else None
+    odd_loop = any(y.get('kind') == 'DoStmt' for y in walk(f)) or any(
+        y.get('kind') in ('WhileStmt', 'ForStmt') and any(z.get('kind') == 'UnaryOperator' and z.get('opcode') in ('++', '--')
+                                                           for z in walk(loops_cond(y) or {})) for y in walk(f))
+    if odd_loop and not (Lsym is not None and Ls[0][1]['step'] == want_step):
+        # a do-while, or a loop that steps its cursor inside its own condition: the loop-carried value is not summarised
+        ctx.unknown('C11-sib', '%s: the skip loop starts at the search result and moves one entry %s per iteration' % (
+            short, 'forward' if role == 'upper' else 'backward'), f,
+            'the scan is a do-while / steps its cursor inside the loop condition: the value carried round the loop is not followed',
+            construct='skiploop:%s' % short)
+        return out
     ctx.check(Lsym is not None and Ls[0][1]['step'] == want_step, 'C11-sib',
               '%s: the skip loop starts at the search result and moves one entry %s per iteration' % (
                   short, 'forward' if role == 'upper' else 'backward'), f,
@@ -397,6 +407,15 @@ def _scan(ctx, u, f, name, algo, role):
                 'no return is guarded by the search having run off the %s of the table' % ('end' if role == 'upper' else 'start'),
                 construct='exhausted:%s' % short)
     return out
+
+
+def loops_cond(loop):
+    ks = loop.get('inner') or []
+    if loop.get('kind') == 'ForStmt' and len(ks) == 5:
+        return ks[2] if ks[2].get('kind') else None
+    if loop.get('kind') == 'WhileStmt' and len(ks) >= 2:
+        return ks[-2]
+    return None
 
 
 def _report_helper(ctx, hf):
